@@ -334,8 +334,8 @@ def b2(pid, tier, seed, wd, rep):
                 e1, e2 = out[sc["id"]], out2[sc["id"] + "/again"]
                 for si, (a, b) in enumerate(zip(e1, e2)):
                     if a["a"] == "poll" and a["ret"] != b["ret"]:
-                        if a["ret"].get("k") == b["ret"].get("k") and a["ret"].get("k") != "wait" and a["ret"].get("tid") != b["ret"].get("tid"):
-                            break                       # a tie between two due requests
+                        if a["ret"].get("k") != "wait" and b["ret"].get("k") != "wait" and a["ret"].get("tid") != b["ret"].get("tid"):
+                            break                       # a tie: two requests were due, each run served another one
                     if a["ret"] != b["ret"] or a["obs"] != b["obs"] or a.get("probe") != b.get("probe"):
                         stats["rejected"] += 1
                         rep.violation("%s step %d: the same history in another agent instance answers differently: %s / %s vs %s / %s" % (
